@@ -40,8 +40,11 @@ CONFIG = {
                  "real-TLS peers",
     "components": [{"name": "hs-client", "timeout": {"quick": 300, "thorough": 1500}, "model_jobs": 4},
                    {"name": "hs-server", "timeout": {"quick": 300, "thorough": 1500}, "model_jobs": 4},
-                   {"name": "seckinds", "timeout": {"quick": 600, "thorough": 1500}}],
-    "rule": "hs-client: grid carrier secure? x client TLS manager {none, skip-verify, verifying, verifying wrong host, failing} x "
+                   {"name": "seckinds", "timeout": {"quick": 600, "thorough": 1500}},
+                   {"name": "recon", "timeout": {"quick": 300, "thorough": 600}}],
+    "rule": "recon: the same upstream object connects again after its carrier was lost; every physical connection of a TLS "
+            "carrier starts with a TLS record; swap: the endpoint behind a TLS upstream turns to plain text, no session may complete. "
+            "hs-client: grid carrier secure? x client TLS manager {none, skip-verify, verifying, verifying wrong host, failing} x "
             "mustSecure {direct call, false, true via InputOutput.Connect} x 14 capability forms (omitted, empty, case variants, "
             "U+017F, duplicated, listed, near misses) x peer after 101 {EOF, real TLS server, plaintext}; duplicated capability "
             "header both orders; garbage after the upgrade; every 4xx/5xx at either step; plus the C06 malformed streams. "
